@@ -127,6 +127,38 @@ def every_name_gets_a_slot(ctx, mpq, pid):
             elif re.search(r"::(chunks|par_chunks|par_iter|into_par_iter|par_bridge|iter|into_iter)$", cn):
                 ctx.rules[R_part]["obligations"] += 1
                 ctx.rules[R_part]["discharged"] += 1
+    # ... in the order requested: nothing re-orders the names (or a per-batch copy of them) on the way, and an empty request is
+    # no special case (the sequential loop still opens every archive and returns one entry per archive)
+    R_ord = ctx.rule("%s.request-order-kept" % pid, "in the parallel modules: no sort / reverse / dedup / swap / rotate / shuffle of a name list, and no early `return Ok(<empty>)` guarded by an is_empty() test of the request", floor=10)
+    REORD = re.compile(r"::(sort|sort_by|sort_by_key|sort_unstable|sort_unstable_by|sort_unstable_by_key|sort_by_cached_key|reverse|dedup|dedup_by|dedup_by_key|swap|swap_remove|rotate_left|rotate_right|shuffle|par_sort\w*)$")
+    for f in mpq.fn_list:
+        # (patch_chain.rs orders archives by priority — C08's subject; the request lists live in the two parallel modules)
+        if not f.file.endswith(("single_archive_parallel.rs", "src/parallel.rs")) or "::tests::" in f.path or not f.mir.get("blocks"):
+            continue
+        hit = False
+        for bb, t in mirg.iter_calls(f):
+            cn = _nc(t) or ""
+            if t.get("x") or not REORD.search(cn):
+                continue
+            hit = True
+            ctx.saw_fn(f)
+            ctx.bad(R_ord, "%s|%s" % (re.sub(r"::\{closure#\d+\}", "", norm(f.path)).split("::")[-1], cn.split("::")[-1]), "%s:%d" % (f.file, t["ln"]), "`%s` in the parallel extraction path" % cn.split("::")[-1],
+                    "result slot k no longer corresponds to request slot k for request orders the re-ordering changes (the set of results is the same, so length checks still pass)")
+        if f.hir and f.kind != "Closure":
+            for n_ in hirq.find(f.hir["body"], "if"):
+                c_ = hirq.render(n_["c"])
+                if "is_empty()" in c_ and any(x.get("k") == "ret" and re.search(r"Ok\((vec!\[\]|Vec::new\(\)|.*::new\(\))\)|Ok\(\[\]", hirq.render(x.get("e"))) for x in hirq.walk(n_["then"])):
+                    pn = [b for p_ in f.hir["params"] for b in hirq.pat_binds(p_)]
+                    which = [p_ for p_ in pn if re.search(r"\b%s\b" % re.escape(p_), c_)]
+                    # an empty *archive* list has nothing to open; an empty *name* list still has its per-archive entries / open errors
+                    if any(re.search(r"name|file", w_) for w_ in which):
+                        hit = True
+                        ctx.saw_fn(f)
+                        ctx.bad(R_ord, "%s|empty-request-shortcut" % norm(f.path).split("::")[-1], "%s:%d" % (f.file, n_.get("ln") or 0), "`if %s { return Ok(empty) }`" % c_[:60],
+                                "for an empty request the sequential equivalent still yields one entry per archive (or the open error of an archive): the parallel helper returns nothing")
+        if not hit:
+            ctx.rules[R_ord]["obligations"] += 1
+            ctx.rules[R_ord]["discharged"] += 1
 
 
 
